@@ -229,6 +229,7 @@ type WriteFault struct {
 	Once  bool `json:"once,omitempty"`
 	Temp  bool `json:"temp,omitempty"`  // the error describes itself as Temporary()/Timeout()
 	Short bool `json:"short,omitempty"` // the error is io.ErrShortWrite (a size-limited writer, a pipe)
+	Full  bool `json:"full,omitempty"`  // the failing write stores ALL its bytes and reports the error with the full count (a mirroring writer whose second sink failed)
 }
 
 // SimWriter records what it receives, is a scheduling point on every call and
@@ -282,6 +283,9 @@ func (w *SimWriter) Write(p []byte) (int, error) {
 		n := f.After - len(w.Buf)
 		if n < 0 {
 			n = 0
+		}
+		if f.Full {
+			n = len(p)
 		}
 		w.Buf = append(w.Buf, p[:n]...)
 		w.Fired++
